@@ -23,6 +23,37 @@ BULK_CONSUMERS = {
 }
 
 
+def _unregister_guard_covers(F, V, body, i):
+    """the element is moved out at block i while its slot is still registered. That is sound if (a) no user code can run
+    between the move-out and the arming of a scope guard whose closure unregisters the slot, (b) every user callback
+    reachable afterwards runs while such a guard is live, (c) every return reachable from i is preceded by a re-write of
+    the bucket or by unregistering it (explicitly, or by the guard being dropped armed)."""
+    gds = []
+    for g in guard_defs(body):
+        cb = F.bodies.get(g["closure"]) if g["closure"] else None
+        if cb is None:
+            continue
+        if any(callee_path(t) in UNREGISTER or (callee_path(t) or "") == "raw::RawTable::remove" for _, t in cb.calls()):
+            gds.append(g)
+    if not gds:
+        return False
+    after = set()
+    for x in body.nsucc[i]:
+        after |= body.reachable_from(x)
+    sites = [j for (j, d) in V.callback_sites(body) if j in after and j != i]
+    for j in sites:
+        if not any(guard_live_at(body, g, j) for g in gds):
+            return False
+    settle = tuple(j for j, t in body.calls() if callee_path(t) in UNREGISTER + ("raw::Bucket::write",))
+    open_ = set()
+    for x in body.nsucc[i]:
+        open_ |= body.reachable_from(x, settle)
+    for r in body.returns:
+        if r in open_ and not any(guard_live_at(body, g, r) for g in gds):
+            return False
+    return True
+
+
 def r_erase_before(F, V):
     R = Result("R-ERASE-BEFORE", F.cfg)
     n = 0
@@ -40,6 +71,10 @@ def r_erase_before(F, V):
             if outer in BULK_CONSUMERS:
                 R.inst(key, "bulk consumer: %s" % BULK_CONSUMERS[outer], "ok", False, where(body, bb=i))
                 continue
+            # the unwind guard of clone_from_impl written as a struct with a destructor instead of a scope-guard closure
+            if what == "drop" and any(g.get("drop_struct") and g["closure"] == outer for g in guard_defs(F.bodies["raw::RawTable::clone_from_impl"])) if "raw::RawTable::clone_from_impl" in F.bodies else False:
+                R.inst(key, "bulk consumer: %s (as the destructor of a guard struct)" % BULK_CONSUMERS["raw::RawTable::clone_from_impl::{closure#0}"], "ok", False, where(body, bb=i))
+                continue
             if outer in ("raw::<RawIntoIter as Drop>::drop", "raw::<RawDrain as Drop>::drop") and what == "drop":
                 # RawIter::drop_elements written out in the destructor of an owning iterator: the remainder is destroyed
                 # there by design; that the storage is then released / reset exactly once is R-OWNING-ITER / R-DRAIN-PROTOCOL
@@ -52,6 +87,9 @@ def r_erase_before(F, V):
                     if body.dominates(t2["target"], i) or t2["target"] == i:
                         # same bucket: the bucket argument of both calls has the same root
                         ok = True
+            if not ok and _unregister_guard_covers(F, V, body, i):
+                R.inst(key, "Bucket::%s happens before the slot is unregistered, but every user callback that can run while it is still registered is covered by a live scope guard that unregisters it, and it is rewritten or unregistered before returning" % what, "ok", True, where(body, bb=i))
+                continue
             if ok:
                 R.inst(key, "Bucket::%s is dominated by the call that clears the control byte" % what, "ok", True, where(body, bb=i))
             else:
@@ -157,7 +195,9 @@ def r_owning_iter(F, V):
                 a = t["args"][0]
                 if a["k"] in ("copy", "move"):
                     r, path = deep_root(db, a["p"])
-                    if r == 1 and fld in path:
+                    # `self` may be wrapped in a scope guard for the duration of drop(): guard(self, ..) derefs to self
+                    via_guard = any(g["local"] == r and 1 in g["roots"] for g in guard_defs(db))
+                    if (r == 1 or via_guard) and fld in path:
                         destroy.append(i)
         release = [i for i, t in db.calls() if any((callee_path(t) or "").endswith("::" + x) or (t["f"].get("method") == x) for x in RELEASERS)]
         if not destroy:
@@ -311,6 +351,13 @@ def r_drain_protocol(F, V):
         de = [i for i, t in db.calls() if (callee_path(t) or "").endswith("::drop_elements")]
         de_inline = [i for i, t in db.calls() if (callee_path(t) or "") == BUCKET_DROP]   # drop_elements written out as a loop
         cl = [i for i, t in db.calls() if (callee_path(t) or "").endswith("::clear_no_drop")]
+        if not cl:
+            # the reset written out in place (clear_no_drop dissolved into its callers): `items = 0` on the drain's table; that the
+            # control bytes are refilled and growth_left recomputed with it is R-ACCT's whole-capacity-reset clause
+            for i, k, s in db.stmts():
+                if s["k"] == "assign" and (last_field(s["p"]) or {}).get("name") == "items" and ((last_field(s["p"]) or {}).get("adt") or "").endswith("RawTableInner") \
+                        and s["rv"]["k"] == "use" and s["rv"]["op"]["k"] == "const" and s["rv"]["op"].get("val") == 0:
+                    cl.append(i)
         wb = []
         for i, t in db.calls():
             cp = callee_path(t) or ""
@@ -341,7 +388,26 @@ def r_drain_protocol(F, V):
                 if c2.endswith("::clear_no_drop") and not hb.control_deps_trans(j, "ret"):
                     cl.append(i)
         key = "raw::<RawDrain as Drop>::drop|order"
-        if not de and de_inline and cl and wb:
+        # the write-back may have been moved into a scope guard created in drop(): its closure then also runs while unwinding
+        # from a panicking element destructor, i.e. before the straight-line clear_no_drop - so the closure itself has to
+        # reset the table before it hands it back
+        guard_wb = None
+        for g in guard_defs(db):
+            cb_ = F.bodies.get(g["closure"]) if g["closure"] else None
+            if cb_ is None:
+                continue
+            w_in = [j for j, t2 in cb_.calls() if _is_wb_call(t2)]
+            w_in += [j for j, k2, s2 in cb_.stmts() if s2["k"] == "assign" and s2["p"].get("t") == INNER and any(e["k"] == "deref" for e in s2["p"].get("proj", []))]
+            if not w_in:
+                continue
+            c_in = [j for j, t2 in cb_.calls() if (callee_path(t2) or "").endswith("::clear_no_drop")]
+            guard_wb = all(any(cb_.dominates(c, w) for c in c_in) for w in w_in)
+        if guard_wb is False:
+            R.violation(key, db, "RawDrain::drop hands the table back to the collection from a scope guard that does not reset it first: when an element destructor panics in drop_elements the guard runs before clear_no_drop, and the collection gets back a table whose control bytes still claim the drained (moved-out or dropped) elements")
+            R.inst(key, "write-back guard without reset", "violation", True, where(db))
+        elif guard_wb is True and (de or de_inline):
+            R.inst(key, "the remainder is destroyed under a scope guard that resets the table (clear_no_drop) and then writes it back", "ok", True, where(db))
+        elif not de and de_inline and cl and wb:
             # inlined form: no element destructor may run once the table has been reset or written back
             after_reset = set()
             for c in cl + wb:
@@ -488,6 +554,29 @@ def _dealloc_of_own_block(body, t):
     return bool(srcs[0] & srcs[1])
 
 
+RAII_PRODUCERS = ("raw::RawTable::into_allocation",)
+
+
+def _raii_release(F, p, body, t):
+    """the deallocate call t sits in `<X as Drop>::drop` of a crate struct X, hands the allocator X's own fields, and X values are
+    built only by into_allocation (where pointer, layout and the not-the-singleton test are checked): X is the
+    (ptr, layout, alloc) triple with a destructor, i.e. the same release one step later. Returns X or None."""
+    im = body.j.get("impl") or {}
+    if im.get("trait") != "core::ops::drop::Drop" or im.get("self_ty", {}).get("k") != "adt":
+        return None
+    X = im["self_ty"]["path"]
+    for a in t["args"][:3]:
+        if a["k"] not in ("copy", "move"):
+            return None
+        r, path = operand_deep_root(body, a)
+        if r != 1:
+            return None
+    sites = [q for q, b2 in F.bodies.items() for _, _, s2 in b2.stmts() if s2["k"] == "assign" and s2["rv"]["k"] == "aggregate" and s2["rv"].get("adt") == X]
+    if not sites or any(q not in RAII_PRODUCERS for q in sites):
+        return None
+    return X
+
+
 def r_alloc_who(F, V):
     R = Result("R-ALLOC-WHO", F.cfg)
     allowed = {
@@ -517,6 +606,8 @@ def r_alloc_who(F, V):
             key = "%s|%s" % (p, kind)
             if p in allowed[kind]:
                 R.inst(key, "%s called from its designated owner" % kind, "ok", False, where(body, bb=i))
+            elif kind == "deallocate" and _raii_release(F, p, body, t):
+                R.inst(key, "deallocate in the destructor of %s, the owned (ptr, layout, alloc) triple that only into_allocation builds" % _raii_release(F, p, body, t), "ok", True, where(body, bb=i))
             elif kind == "deallocate" and _dealloc_of_own_block(body, t):
                 # the release written out in place (free_buckets inlined at its call site): what matters is that the block
                 # returned is the table's own - pointer and layout both come from one allocation_info()/into_allocation()
@@ -573,6 +664,21 @@ def r_singleton_guard(F, V):
             if p in REQUIRES_ALLOCATED:
                 R.inst(key, "inside a requires-allocated function: the obligation is on its callers", "ok", False, where(body, bb=i))
                 continue
+            if is_dealloc and _raii_release(F, p, body, t):
+                # the value being destroyed exists only on into_allocation's Some arm; that None is claimed only for the
+                # singleton is the clause on into_allocation below, that Some is built only off the singleton is checked here
+                X_ = _raii_release(F, p, body, t)
+                okx = True
+                for q in RAII_PRODUCERS:
+                    b2 = F.bodies.get(q)
+                    if b2 is None:
+                        continue
+                    for j2, k2, s2 in b2.stmts():
+                        if s2["k"] == "assign" and s2["rv"]["k"] == "aggregate" and s2["rv"].get("adt") == X_ and not _singleton_negative_arm(F, b2, j2, None):
+                            okx = False
+                if okx:
+                    R.inst(key, "destructor of %s, which into_allocation builds only on the not-empty-singleton arm" % X_, "ok", True, where(body, bb=i))
+                    continue
             root = None
             if not is_dealloc and t["args"]:
                 root, _ = operand_deep_root(body, t["args"][0])
@@ -736,6 +842,8 @@ def r_layout_source(F, V):
                         src.add("field:allocation")
             if any(s.endswith("TableLayout::calculate_layout_for") for s in src) or any(s.endswith("::allocation_info") for s in src) or "field:allocation" in src:
                 R.inst(key, "layout comes from %s" % sorted(src)[:3], "ok", True, where(body, bb=i))
+            elif li == 2 and _raii_release(F, p, body, t):
+                R.inst(key, "layout is the one stored in %s by into_allocation()" % _raii_release(F, p, body, t), "ok", True, where(body, bb=i))
             elif p.endswith("{closure#0}") and "RawIntoParIter" in p:
                 # captured (ptr, layout, alloc) from into_allocation in the creator
                 R.inst(key, "layout captured from into_allocation()'s result", "ok", True, where(body, bb=i))
